@@ -323,17 +323,21 @@ func VerifH_registry() {
 // resolve every (symbolic) request path identically.
 func VerifH_config_vs_annotation() {
 	var verb, tmpl, body string
-	switch vfChoice(3) {
+	switch vfChoice(5) {
 	case 0:
 		verb, tmpl = "GET", "/c/{f}"
 	case 1:
 		verb, tmpl, body = "POST", "/c/{f=aa/*}:vv", "*"
+	case 3:
+		verb, tmpl = "GET", "/c/{nope}" // a rule that does not fit the method: unknown field path
+	case 4:
+		verb, tmpl, body = "POST", "/c/{f}", "nope" // ... unresolvable body selector
 	default:
 		verb, tmpl = "*", "/c/xx"
 	}
 	selector := []string{"vf.A.M1", "vf.A.*", "vf.*", "*"}[vfChoice(4)]
 	withOther := vfBool() // a second rule with a named selector next to it
-	build := func(viaConfig bool) *Mux {
+	build := func(viaConfig bool) (*Mux, error) {
 		sp := vfSvcSpec{full: "vf.A", file: "vfa.proto", reqName: "ReqA", methods: []vfMethodSpec{{name: "M1", verb: verb, tmpl: tmpl}}}
 		svc := vfFakeSvc(sp)
 		rule := vfHTTPRule(verb, tmpl)
@@ -361,11 +365,21 @@ func VerifH_config_vs_annotation() {
 		}
 		sd := &grpc.ServiceDesc{ServiceName: "vf.A", Methods: []grpc.MethodDesc{{MethodName: "M1", Handler: vfUnaryHandler}}}
 		if err := mux.registerService(sd, &vfServer{}); err != nil {
-			vfFail("registerService failed: " + err.Error())
+			return nil, err
 		}
-		return mux
+		return mux, nil
 	}
-	a, b := build(true), build(false)
+	a, ea := build(true)
+	b, eb := build(false)
+	// a rule is accepted or rejected alike whether it comes as an annotation or through the service
+	// config - under an exact selector and under every wildcard shape
+	vfCheck((ea != nil) == (eb != nil), "a rule that is rejected as an annotation is accepted as a service-config rule (or the reverse)")
+	if ea != nil || eb != nil {
+		vfCheck(tmpl == "/c/{nope}" || body == "nope", "registerService failed on a valid rule")
+		vfCover("rejected-alike")
+		return
+	}
+	vfCheck(tmpl != "/c/{nope}" && body != "nope", "a rule that does not fit its method was accepted")
 	var route string
 	if selector == "vf.A.M1" && withOther {
 		route = vfRoute(vfBound(8, 10))
